@@ -539,7 +539,17 @@ fn mutations_of(seed: &[u8], c: &MutCase, mut f: impl FnMut(Mutation)) {
 
 const MUT_BLOCK: usize = 16;
 
+extern "C" {
+    fn mallopt(param: i32, value: i32) -> i32;
+}
+
 pub fn run(run: &'static Run) {
+    // glibc: keep freed memory instead of returning it to the kernel after every 64 KiB packet-line buffer (brk/madvise thrash
+    // made such cases ~100x slower than the decoder itself). M_TRIM_THRESHOLD = -1, M_TOP_PAD = -2.
+    unsafe {
+        mallopt(-1, 512 << 20);
+        mallopt(-2, 16 << 20);
+    }
     let eps = entry_points();
     let only: Option<Vec<String>> = std::env::var("C06_ONLY").ok().map(|s| s.split(',').map(str::to_string).collect());
     run.rule(
@@ -556,6 +566,7 @@ pub fn run(run: &'static Run) {
     run.budget_secs(std::env::var("C06_BUDGET").ok().and_then(|s| s.parse().ok()).unwrap_or(run.pick(38.0, 840.0)));
 
     // ---- seeds (built in every mode: a replayed mutation case needs its seed) ----
+    let t_seeds = std::time::Instant::now();
     let root = vkit::scratch::Dir::new("c06seeds");
     // a replayed case carries its own seed bytes; only split-index cases need the shared index file that git wrote next to the seed
     let replay_needs_corpus = run.is_replay()
@@ -583,6 +594,8 @@ pub fn run(run: &'static Run) {
     let mut outcome_info: BTreeMap<String, BTreeMap<&'static str, u64>> = BTreeMap::new();
     let mut total_inputs = 0u64;
     let mut seeds_accepted = 0u64;
+    let mut wall_info: BTreeMap<String, f64> = BTreeMap::new();
+    wall_info.insert("(seed corpus)".into(), (t_seeds.elapsed().as_secs_f64() * 10.0).round() / 10.0);
 
     let opts = || vkit::Opts::default().chunk(256).watchdog(5.0).isolate();
 
@@ -593,6 +606,7 @@ pub fn run(run: &'static Run) {
             }
         }
         let max_len = run.pick(ep.len.0, ep.len.1);
+        let t_ep = std::time::Instant::now();
         // ---------- (a) token alphabet ----------
         if !ep.tokens.is_empty() {
             alpha_info.insert(
@@ -648,10 +662,8 @@ pub fn run(run: &'static Run) {
         }
         // ---------- (b) mutations of valid seeds ----------
         let seeds: Vec<&seeds::Seed> = corpus.seeds.iter().filter(|s| ep.formats.contains(&s.format) && !(run.quick() && s.thorough_only)).collect();
-        if seeds.is_empty() && !run.is_replay() {
-            continue;
-        }
-        if ep.formats.is_empty() {
+        if (seeds.is_empty() && !run.is_replay()) || ep.formats.is_empty() {
+            wall_info.insert(ep.name.to_string(), (t_ep.elapsed().as_secs_f64() * 10.0).round() / 10.0);
             continue;
         }
         let by_name: BTreeMap<String, &seeds::Seed> = seeds.iter().map(|s| (format!("{}/{}", s.format, s.name), *s)).collect();
@@ -661,7 +673,8 @@ pub fn run(run: &'static Run) {
         let stats = Stats::default();
         run.sub_with(
             &sub,
-            opts().chunk(64),
+            // file-based decoders mmap/munmap per input: in one process that serialises on the address-space lock, one thread is faster than 16
+            if matches!(ep.name, "index-file" | "commit-graph" | "multi-pack-index" | "pack-idx") { opts().chunk(64).serial() } else { opts().chunk(64) },
             |emit| {
                 for (name, s) in &by_name {
                     let mk = |kind, from, to| MutCase { seed: name.clone(), bytes: B(s.bytes.clone()), kind, from, to, value: None };
@@ -709,10 +722,12 @@ pub fn run(run: &'static Run) {
         inputs_info.insert(sub.clone(), n);
         accepted_info.insert(sub.clone(), stats.accepted.load(Ordering::Relaxed));
         outcome_info.insert(sub.clone(), stats.classes.lock().unwrap().clone());
+        wall_info.insert(ep.name.to_string(), (t_ep.elapsed().as_secs_f64() * 10.0).round() / 10.0);
     }
     run.cov("alphabets", &alpha_info);
     run.cov("inputs", &inputs_info);
     run.cov("inputs_total", total_inputs);
+    run.cov("wall_s_per_entry_point", &wall_info);
     run.cov("inputs_accepted", &accepted_info);
     run.cov("input_outcomes", &outcome_info);
     if only.is_none() && !run.is_replay() {
